@@ -77,6 +77,23 @@ theorem roundtrip_decoder (msgs : List Bytes) (caps : List Nat) (e : Ending)
   rw [decodeAll_eq]
   exact roundtrip _ msgs caps e he (fun m hm => ⟨by have := hf m hm; omega, hf m hm⟩)
 
+/-- **Writes are all or nothing.**  A write that fails (the message cannot be encoded) appends
+nothing to the stream … -/
+theorem failed_write_appends_nothing (s : Bytes) : writeStep s none = s := rfl
+
+/-- … so after ANY history of successful and failed writes the stream is the encoding of the
+successful ones and reads back as exactly those, followed by a clean end — for every chunking. -/
+theorem history_roundtrip (max : Nat) (h : List (Option Bytes)) (caps : List Nat) (e : Ending)
+    (he : Closes e) (hf : Fits max (h.filterMap id)) :
+    (readAll max ((h.filterMap id).length + 1) ⟨writeHistory h, caps, e⟩).results
+      = (h.filterMap id).map Res.msg ++ [Res.eof] := by
+  rw [writeHistory_eq]
+  exact roundtrip max (h.filterMap id) caps e he hf
+
+example : writeHistory [some [1, 2], none, some [], none, none, some [7]] = [[1, 2], [], [7]].flatMap encode ∧
+    Fits 5 ([some [1, 2], none, some [], none, none, some [7]].filterMap id) :=
+  ⟨by decide, by intro m hm; simp at hm; rcases hm with h | h | h <;> subst h <;> decide⟩
+
 /-- **Clean end**: a stream cut exactly between two messages yields the messages before the
 cut and then end of input. -/
 theorem clean_end (max : Nat) (msgs : List Bytes) (j : Nat) (caps : List Nat) (e : Ending)
